@@ -1258,6 +1258,15 @@ def shrink_script(case, still_fails, budget_s: float = 2.5):
     Wall-clock bounded: shrinking is a convenience, never part of a verdict.  Only the first
     case per mechanism key in a worker process is shrunk (the runner keeps one replay per key,
     taken from the lowest case index, i.e. from the first shard)."""
+    if not _SHRUNK_KEYS:
+        # mechanisms that already have a pinned, hand-minimised witness need no second one
+        try:
+            from hsverif import findings as _kf
+
+            _SHRUNK_KEYS.update(_kf.key_of(e) for e in _kf.for_property(PID) if e.get("status") == "known")
+        except Exception:  # noqa: BLE001
+            pass
+        _SHRUNK_KEYS.add(("", "", ""))
     probe_case = dict(case)
     probe_case["K"] = 0
     keys = {v.key() for v in run_linked(probe_case).violations}
@@ -1303,8 +1312,8 @@ FAMILIES = {
 BUDGET = {
     "quick": {"linked": 160, "boundary": 120, "idle": 24, "far_epoch": 40, "latency_link": 40, "chain": 60, "independent": 60, "config": 30},
     "thorough": {
-        "linked": 2500,
-        "boundary": 2000,
+        "linked": 2000,
+        "boundary": 1600,
         "idle": 150,
         "far_epoch": 500,
         "latency_link": 500,
